@@ -16,13 +16,22 @@ def enum_ob(name, ok, where='', **meta):
 
 JUSTIFIED = {'branch.has': True, 'branch.all': True, 'NodesWorlds.contains': True, 'WorldIndex.has': True}
 
-def skip_reason(notes):
+def skip_reason(notes, modal=False):
     "why a path of a rule body produced no target: the decisive abstract query"
     qs = notes.get('queries', [])
     for q in qs:
         if q[0] == 'NodeCount.isleast' and q[2] is False: return 'NodeCount.isleast is False (fairness heuristic)', False
     for q in reversed(qs):
-        if q[0] in JUSTIFIED and q[2] is JUSTIFIED[q[0]]: return f'{q[0]} (the instance is already on the branch / already applied)', True
+        if q[0] in JUSTIFIED and q[2] is JUSTIFIED[q[0]]:
+            # "it is there already" justifies a skip only if the lookup is about the world the instance would be added at: a lookup that
+            # gives a sentence but no world is answered by a node at ANY world (modal logics put a world on every sentence node)
+            if modal and q[0] in ('branch.has', 'branch.all'):
+                nodes_ = q[1] if isinstance(q[1], (tuple, list)) else (q[1],)
+                for nd in nodes_:
+                    pr = getattr(nd, 'props', nd if isinstance(nd, dict) else {})
+                    if any(str(getattr(k, 'value', k)) == 'sentence' for k in pr) and not any(str(getattr(k, 'value', k)) == 'world' and v is not None for k, v in pr.items()):
+                        return f'{q[0]} asked about a sentence without a world (a node at any world answers it)', False
+            return f'{q[0]} (the instance is already on the branch / already applied)', True
     return 'no query explains the empty result', False
 
 def work_logic(lname):
@@ -48,7 +57,7 @@ def work_logic(lname):
         bad = []
         for notes, targets in sc.paths:
             if targets: continue
-            why, ok = skip_reason(notes)
+            why, ok = skip_reason(notes, bool(logic.Meta.modal))
             if not ok: bad.append(why)
         if kind == 'modal' or any(not t for _, t in sc.paths):
             results.append(discharge(enum_ob(f'C02.saturation.{L}.{rc.__name__}.skips-justified', not bad, where=where, logic=L, rule=rc.__name__,
